@@ -234,7 +234,51 @@ def run(ctx):
             ctx.sample({'mode': mode, 'lengths': shape, 'model_root': root,
                         'hash': ref.b58check(KIND[mode], evaluate(root, env))}, limit=5)
     ctx.exhaustive = True
+    concurrent_callers(ctx, [(m, sh, rt) for _, m, sh, rt in outs if m == 'ol' and 3 <= sh[0] <= 9], rng)
     leg_c(ctx, rng)
+
+
+def concurrent_callers(ctx, cases, rng):
+    """The hash of a list is a function of the list also when several callers hash different lists at the same time (threads of one
+    process, e.g. a pool hashing the passes of several blocks): two threads, interpreter switching at the shortest interval, each
+    hashing its own lists over and over; every result must be the model's root of that thread's list."""
+    import sys, threading
+    from pytezos.crypto import hash as H
+    jobs = []
+    for mode, shape, root in cases[:8]:
+        env = make_env(shape, 'random', rng)
+        lst = [ref.b58check('o', env[('op', 1, t)]) for t in range(1, shape[0] + 1)]
+        jobs.append((shape, lst, ref.b58check(KIND[mode], evaluate(root, env))))
+    if len(jobs) < 2:
+        return
+    wrong = []
+
+    def worker(mine):
+        for k in range(150):
+            shape, lst, want = mine[k % len(mine)]
+            try:
+                got = H.operation_list_hash(list(lst))
+            except Exception as e:   # noqa
+                got = 'raises-' + type(e).__name__
+            if got != want:
+                wrong.append((shape, got, want))
+                return
+    old = sys.getswitchinterval()
+    sys.setswitchinterval(1e-6)
+    try:
+        ts = [threading.Thread(target=worker, args=(jobs[0::2],)), threading.Thread(target=worker, args=(jobs[1::2],))]
+        for t in ts:
+            t.start()
+        for t in ts:
+            t.join()
+    finally:
+        sys.setswitchinterval(old)
+    ctx.count(('concurrent', len(jobs)), nontrivial=True)
+    ctx.extra['concurrent_calls'] = 300
+    if wrong:
+        shape, got, want = wrong[0]
+        ctx.mismatch('C31:concurrent-callers:wrong-hash', 'operation_list_hash of a list of %d hashes, while another thread hashes other lists: %s, the Merkle root is %s' % (shape[0], got, want),
+                     {'mode': 'concurrent', 'shape': list(shape)})
 
 
 # ---------------------------------------------------------------- Leg C
@@ -340,6 +384,9 @@ def replay(ctx, rep):
             env = {tuple(k): bytes.fromhex(v) for k, v in c['env']}
             tr, _ = record(tr['mode'], tuple(tr['shape']), env)
         validate_traces(ctx, [tr], 'C31:trace', [c.get('env')])
+        ok = not ctx.mismatches
+    elif c.get('mode') == 'concurrent':     # a schedule cannot be replayed from a file: the whole check (with its concurrent leg) is run again
+        run(ctx)
         ok = not ctx.mismatches
     else:
         ok = True
